@@ -33,10 +33,13 @@ CHECKS.update({
   'note': 'Every-stream conclusions follow from the one-step lemmas by induction over the stream (not machine-checked). gstuff.cpp is verified through the '
           'mechanical cxx2c extraction (members -> self->, references -> pointers, default member initialisers -> generated ctor).'},
  'C16': {
-  'text': 'Partial claim: the due rule and the no-drift arithmetic of stimer (C) and timer_head (C++, extracted) are proved loop-free for the full 64-bit domain '
+  'text': 'The due rule and the no-drift arithmetic of stimer (C) and timer_head (C++, extracted) are proved loop-free for the full 64-bit domain; the scheduler clauses (pending list '
+          'sorted by deadline and equal to the planned set after every plan(); callbacks never early, in deadline order, re-armed at previous deadline + interval, unplanned never fires, no due '
+          'timer left after exec, empty()/minimal_interval() agree with the reference) are BOUNDED stand-ins on the real extracted timer_manager, inductive in the history (one operation from '
+          'every sorted pending list of <= 2 timers; exec in the thorough tier). Arithmetic part: '
           '(within the no-overflow range): due exactly from start+interval on, never before; shift/swift re-arms at exactly previous deadline + interval; an '
-          'unplanned stimer never fires. Ordering of callbacks, "every due timer runs" and pending-set equality are NOT decided (plan() is std::find_if with a '
-          'generic lambda, exec() dispatches virtually; sortedness of an unbounded intrusive list is not expressible in CBMC contracts).',
+          'unplanned stimer never fires. For unbounded timer counts the ordering clauses are not decided (sortedness of an unbounded intrusive list is not expressible in CBMC '
+          'contracts); std::find_if + lambda is mapped by an extraction rule onto the first-match loop over the intrusive iterator, virtual execute() onto a recording callback.',
   'ref': 'C16', 'technique': 'CBMC full-domain assertions on the real (cxx2c-extracted) arithmetic; no loops',
   'note': 'Assumes times/intervals within +-2^61 (signed overflow is undefined in C and flagged outside that range). See units/C16/PROPERTY.json for the clauses not under contract.'},
  'C17': {
